@@ -208,6 +208,19 @@ def _sequential(ctx, r, idx, rig):
 
 	for step in range(r.randint(30, 60)):
 		x = r.random()
+		if step == 5 and r.random() < 0.05:
+			# a long backlog: several hundred bursts queued ahead at once
+			s = r.choice(rig.senders)
+			if b.models[s].running:
+				for q in range(r.choice((255, 256, 257, 400))):
+					k, m = rig.new_burst(s, clock + 1 + q % 7)
+					rig.bursts[k] = {"fn": m["fn"], "sender": s}
+					if not rig.feed(s, m):
+						fail("burst of a long backlog dropped by a running transceiver")
+						return
+					model.accept(k, s, m["fn"])
+				hist.append("backlog of bursts for clock+1..+7 queued")
+				ctx.count("backlogs")
 		if x < 0.5:
 			s = r.choice(rig.senders)
 			d = r.choice((-3, -2, -1, 0, 0, 1, 1, 2, 3, 4, 5, 26, H - 1, H - 30)) if r.random() < 0.9 else r.randint(-50, 200)
